@@ -22,6 +22,7 @@ STUBS = [
     "while a symbolic path is active), sqrt/exp/log/... on scalars call the symbolic scalar's method; "
     "bincount/searchsorted/unique/nonzero have pure-Python object versions that fork on symbolic comparisons",
     "builtin float() in line_search / rg_space: identity on symbolic scalars",
+    "utilities.check_dtype_or_none: dtype `object` (a symbolic field) is accepted as a sampling dtype",
 ]
 
 _installed = False
@@ -385,6 +386,21 @@ def install():
     aa.AnyArray.real = _part("real")
     aa.AnyArray.imag = _part("imag")
     proxy_np(aa)   # np.isreal/np.iscomplex/np.isscalar on symbolic scalars (AnyArray.full)
+
+    # sampling dtypes: the dtype of a symbolic field is `object`; it stands for float64/complex128
+    orig_cd = ut.check_dtype_or_none
+
+    def check_dtype_or_none(obj, domain=None):
+        if obj is object or obj == np.dtype(object):
+            return
+        if isinstance(obj, dict):
+            obj = {k: (None if (v is object or v == np.dtype(object)) else v) for k, v in obj.items()}
+        return orig_cd(obj, domain)
+    ut.check_dtype_or_none = check_dtype_or_none
+    import nifty.cl.operators.block_diagonal_operator as bdo
+    import nifty.cl.operators.scaling_operator as so
+    bdo.check_dtype_or_none = check_dtype_or_none
+    so.check_dtype_or_none = check_dtype_or_none
 
 
 def proxy_np(module, extra=None):
